@@ -34,6 +34,11 @@ def plan(tier, seed):
     items = [dict(date=str(d), k=k, seed=seed) for d in dates for k in range(4 if tier == "quick" else 6)]
     # deterministic witnesses of the situations behind the known findings (so that every run meets them)
     items.append(dict(date="2023-07-01", k=0, seed=seed, witness=True))
+    # historical dates (rules of the periods 1998-2014): every suffixed rule that is computable there
+    old = [d for d in env.change_dates() if datetime.date(1998, 1, 1) <= d < datetime.date(2015, 1, 1)]
+    hist = old if tier == "thorough" else sorted({datetime.date(2003, 1, 1), datetime.date(2007, 1, 1), datetime.date(2009, 7, 1),
+                                                  datetime.date(2012, 1, 1), old[int(r.integers(0, len(old)))]})
+    items += [dict(date=str(d), k=k, seed=seed, historical=True) for d in hist for k in range(2 if tier == "quick" else 3)]
     return items
 
 
@@ -74,7 +79,16 @@ def run_item(item):
         hm = popgen.random_injective(rng, sorted(df["hh_id"].unique().tolist()), 15000)
         df = popgen.relabel(df, pm, {h: v + 1000 for h, v in hm.items()})
     df = df.iloc[rng.permutation(len(df))].reset_index(drop=True)
-    T, nodes, roots, dag, fn = env.trace(df, params, functions, rounding=bool(item["k"] % 2))
+    TARGETS = None
+    if item.get("historical"):
+        if item["k"] >= 1:  # low earners: caps and allowances are not binding, so individual amounts stay visible
+            for c in ("bruttolohn_m", "eink_selbst_m", "eink_vermietung_m", "kapitaleink_brutto_m"):
+                df[c] = (df[c] * [0.0, 0.3, 0.12][item["k"] % 3]).round(2) if item["k"] % 3 else df[c]
+        df = popgen.historical_supplement(df, d, rng)
+        cand = [n for n in functions if level_of(n) and not n.endswith("_id")]
+        TARGETS = env.feasible_targets(functions, list(df.columns), data=df, params=params,
+                                       candidates=[*env.DEFAULT_TARGETS, *cand, "zu_verst_eink_y_sn", "vorsorgeaufw_y_sn"])
+    T, nodes, roots, dag, fn = env.trace(df, params, functions, TARGETS, rounding=bool(item["k"] % 2))
     res = dict(date=item["date"], pop=popgen.digest(df), violations=[], suffixed_nodes=0, groups_checked=0,
                propagated=0, multi_member_groups={}, nodes=[])
     bad_nodes = {}
@@ -131,7 +145,7 @@ def run_item(item):
                 df2.loc[kids, c] = df2[c].iloc[kids].to_numpy()  # own household: any value is constant there
             df2["eigenbedarf_gedeckt"] = df2["eigenbedarf_gedeckt"] & ~df2.index.isin(kids)
             df2["alleinerz"] = False
-            T2, nodes2, _, dag2, _ = env.trace(df2, params, functions, rounding=bool(item["k"] % 2))
+            T2, nodes2, _, dag2, _ = env.trace(df2, params, functions, TARGETS, rounding=bool(item["k"] % 2))
             res["second_pass_runs"] = 1
             for t in nodes2:
                 lvl = level_of(t)
@@ -174,6 +188,8 @@ def summarize(results, tier, seed):
         groups_checked=sum(r["groups_checked"] for r in ok), multi_member_groups_by_level=multi,
         propagated_not_reported=sum(r["propagated"] for r in ok),
         populations=len({r["pop"] for r in ok}), dates=sorted({r["date"] for r in ok}),
+        historical_dates=sorted({r["date"] for r in ok if r["_item"].get("historical")}),
+        suffixed_nodes_at_historical_dates=sum(r["suffixed_nodes"] for r in ok if r["_item"].get("historical")),
         second_simulations_with_changed_households=sum(r.get("second_pass_runs", 0) for r in ok),
         samples=[r["sample"] for r in ok[:2]],
     )
